@@ -2,5 +2,6 @@ SPECIFICATION Spec
 CONSTANTS
   Deviations = {}
   Family = "req"
+  PathDepth = 2
 INVARIANTS AcceptedOnlyIfNumbered WellFormed NotInMessage LocationPartition DeliveredIntact InvokedIffValid ResultIntact ResponsePartition ClientRejectsInvalidResult
 CHECK_DEADLOCK FALSE
